@@ -181,36 +181,35 @@ func errHandled(g *eng.Graph, call *ast.CallExpr, failOK func(*eng.GNode) bool) 
 			return errVerdict{false, fmt.Sprintf("a path reaches the exit at %s without testing the error", g.Describe(n))}
 		}
 	}
-	// on each non-nil edge, all paths fail
-	for n := range reach {
-		if !isTestNode(n) {
+	// assuming the error is non-nil, every path from the binding fails before the function exits or the variable is
+	// overwritten (a test such as `err != nil && other` leaves its false edge feasible: the error can slip through)
+	assumedNonNil := func(f eng.Fact) bool {
+		x, y, eq, isEq := eng.EqAtom(f)
+		if !isEq || eq {
+			return false
+		}
+		return (eng.SelObj(info, x) == errVar && eng.IsNil(info, y)) || (eng.SelObj(info, y) == errVar && eng.IsNil(info, x))
+	}
+	via := func(m *eng.GNode) bool {
+		if failOK != nil && failOK(m) {
+			return true
+		}
+		if ret, isR := m.Node.(*ast.ReturnStmt); isR {
+			return returnsNonNilError(info, sig, ret)
+		}
+		return false
+	}
+	infeasible := g.Infeasible(assumedNonNil)
+	reach2 := g.Reach(eng.Query{From: []*eng.GNode{node}, NoFlags: true, AvoidEdge: infeasible, AvoidNode: func(n *eng.GNode) bool { return via(n) || overwrites(n) }})
+	for n := range reach2 {
+		if via(n) {
 			continue
 		}
-		for _, e := range n.Succ {
-			nonNil, ok := isTestEdge(e)
-			if !ok || !nonNil {
-				continue
-			}
-			// walk from e.To
-			via := func(m *eng.GNode) bool {
-				if failOK != nil && failOK(m) {
-					return true
-				}
-				if ret, isR := m.Node.(*ast.ReturnStmt); isR {
-					return returnsNonNilError(info, sig, ret)
-				}
-				return false
-			}
-			start := e.To
-			if via(start) {
-				continue
-			}
-			q := eng.Query{From: []*eng.GNode{start}, NoFlags: true}
-			// include start itself: emulate by starting from a pseudo predecessor: use Reach with From=[n] and AvoidEdge others
-			q = eng.Query{From: []*eng.GNode{n}, NoFlags: true, AvoidEdge: func(x *eng.GEdge) bool { return x.From == n && x != e }}
-			if ex := g.MustPassToExit(q, via); ex != nil {
-				return errVerdict{false, fmt.Sprintf("on the error edge a path reaches %s without returning a non-nil error", g.Describe(ex))}
-			}
+		if overwrites(n) {
+			return errVerdict{false, fmt.Sprintf("with a non-nil error the variable can be overwritten at %s before a failing return", g.Describe(n))}
+		}
+		if n.Exit {
+			return errVerdict{false, fmt.Sprintf("with a non-nil error a path reaches %s without returning a non-nil error", g.Describe(n))}
 		}
 	}
 	_ = tested
